@@ -74,12 +74,24 @@ func (e *Exec) calleeEnv(callee *ssa.Function, sp *FuncSpec, args []Val, binds [
 			}
 		}
 	} else {
-		// interface method / assumed: positional names a0, a1, ... and recv
-		for i, a := range args {
-			env.vars[fmt.Sprintf("a%d", i)] = a
+		// interface method / function type: recv (or fn) is args[0]; a0, a1, ... the rest
+		if sp != nil && sp.FuncType {
+			if len(args) > 0 {
+				env.vars["fn"] = args[0]
+			}
+			for i, a := range args[1:] {
+				env.vars[fmt.Sprintf("a%d", i)] = a
+			}
+		} else {
+			for i, a := range args {
+				env.vars[fmt.Sprintf("a%d", i)] = a
+			}
+			if len(args) > 0 {
+				env.vars["recv"] = args[0]
+			}
 		}
-		if len(args) > 0 {
-			env.vars["recv"] = args[0]
+		if sp != nil && sp.Pkg != "" {
+			env.pkg = e.L.pkgByPath(sp.Pkg)
 		}
 	}
 	if env.pkg == nil {
@@ -323,15 +335,29 @@ func (env *SpecEnv) selectField(a Val, name string) (Val, error) {
 	e := env.e
 	// ghost field?
 	if g, ok := e.L.specs.Ghosts[name]; ok {
-		T, err := e.L.resolveType(env.pkg, g.Type)
-		if err != nil {
-			return Val{}, err
-		}
 		idx := a.leaves()
 		if len(idx) != 1 {
 			return Val{}, fmt.Errorf("ghost field owner must be scalar")
 		}
 		key := "X:" + name
+		if i := strings.Index(g.Type, "->"); i >= 0 {
+			// ghost map field: owner -> (K -> V)
+			KT, err := e.L.resolveType(env.pkg, g.Type[:i])
+			if err != nil {
+				return Val{}, err
+			}
+			VT, err := e.L.resolveType(env.pkg, g.Type[i+2:])
+			if err != nil {
+				return Val{}, err
+			}
+			vs := arrSort(scalarSort(KT), scalarSort(VT))
+			arr := e.heapGet(env.st, key, arrSort(scalarSort(a.T), vs))
+			return Val{T: types.NewMap(KT, VT), S: sel(arr, idx[0]), GhostArr: true}, nil
+		}
+		T, err := e.L.resolveType(env.pkg, g.Type)
+		if err != nil {
+			return Val{}, err
+		}
 		srt := arrSort(scalarSort(a.T), scalarSort(T))
 		arr := e.heapGet(env.st, key, srt)
 		return Val{T: T, S: sel(arr, idx[0])}, nil
@@ -395,6 +421,13 @@ func (env *SpecEnv) index(a, i Val) (Val, error) {
 			return Val{T: tByte, S: app("sat", a.S, e.toBV64(i))}, nil
 		}
 	case *types.Map:
+		if a.GhostArr {
+			k, err := env.coerce(i, u.Key())
+			if err != nil {
+				return Val{}, err
+			}
+			return Val{T: u.Elem(), S: sel(a.S, k.leaves()[0])}, nil
+		}
 		ks, ok := e.mapSorts(a.T)
 		if !ok {
 			return Val{}, fmt.Errorf("map with composite key")
@@ -488,6 +521,19 @@ func (env *SpecEnv) evalBin(x *SExpr) (Val, error) {
 			eq = mkNot(eq)
 		} else if op != "==" {
 			return Val{}, fmt.Errorf("bad nil comparison")
+		}
+		return Val{T: tBool, S: eq}, nil
+	}
+	if kindOf(a.T) == kSlice && kindOf(b.T) == kSlice && (op == "==" || op == "!=") {
+		// identical slice values (same backing array, offset, length, capacity)
+		var cs []string
+		la, lb := a.leaves(), b.leaves()
+		for i := range la {
+			cs = append(cs, mkEq(la[i], lb[i]))
+		}
+		eq := mkAnd(cs...)
+		if op == "!=" {
+			eq = mkNot(eq)
 		}
 		return Val{T: tBool, S: eq}, nil
 	}
@@ -795,7 +841,7 @@ func (env *SpecEnv) havocLoc(x *SExpr, st *State) error {
 	}
 	switch x.Op {
 	case "sel":
-		if _, ok := e.L.specs.Ghosts[x.Tok]; ok {
+		if g0, ok := e.L.specs.Ghosts[x.Tok]; ok && !strings.Contains(g0.Type, "->") {
 			a, err := env.eval(x.Args[0])
 			if err != nil {
 				return err
@@ -809,6 +855,20 @@ func (env *SpecEnv) havocLoc(x *SExpr, st *State) error {
 			srt := arrSort(scalarSort(a.T), scalarSort(T))
 			arr := e.heapGet(st, key, srt)
 			e.heapSet(st, key, srt, sto(arr, a.leaves()[0], e.fresh("ghost_"+x.Tok, scalarSort(T))))
+			return nil
+		}
+		if g, ok := e.L.specs.Ghosts[x.Tok]; ok && strings.Contains(g.Type, "->") {
+			v, err := env.eval(x)
+			if err != nil {
+				return err
+			}
+			a, _ := env.eval(x.Args[0])
+			key := "X:" + x.Tok
+			srt := e.keySort[key]
+			arr := e.heapGet(st, key, srt)
+			_, vs := splitArrSort(srt)
+			e.heapSet(st, key, srt, sto(arr, a.leaves()[0], e.fresh("ghost_"+x.Tok, vs)))
+			_ = v
 			return nil
 		}
 		a, err := env.eval(x.Args[0])
